@@ -149,6 +149,18 @@ def h_octahedral_l2(env, iop):
     _close(env, "shell2_gram_invariant", b, a)
 
 
+def h_values_agree(env, lmax=5):
+    """the value routine and the value output of the value+gradient routine are the same real spherical harmonics (same signs)
+    up to a high degree; together with the l <= 2 conventions above this pins the sign convention of every tabulated Y_lm"""
+    nlm = (lmax + 1) ** 2
+    r = _unit(env)
+    res, dres = env.zeros((1, nlm)), env.zeros((1, 3, nlm))
+    ccall(env, SPH_C, "recursive_sph_harm_deriv_vec", [nlm, 1, r.copy(), res, dres])
+    y = _ylm(env, r, nlm)
+    for i in range(nlm):
+        env.equal("value_%d" % i, res[0, i], y[0, i])
+
+
 def h_deriv(env, lmax=2):
     nlm = (lmax + 1) ** 2
     r = _unit(env)
@@ -268,7 +280,7 @@ def h_relabel_indexer(env, atoms, perm, shells, lmax=1):
 
 
 def tasks(tier):
-    out = [Task("l1_convention", h_l1_convention, {}), Task("shell_norm/lmax2", h_shell_norm, dict(lmax=2)), Task("deriv/lmax2", h_deriv, dict(lmax=2)),
+    out = [Task("values_agree/lmax%d" % (5 if tier == "quick" else 8), h_values_agree, dict(lmax=5 if tier == "quick" else 8)), Task("l1_convention", h_l1_convention, {}), Task("shell_norm/lmax2", h_shell_norm, dict(lmax=2)), Task("deriv/lmax2", h_deriv, dict(lmax=2)),
            Task("l1_contraction_rotation/proper", h_l1_contraction_rotation, {}, mods="numint", max_paths=64),
            Task("l1_contraction_rotation/improper", h_l1_contraction_rotation, dict(improper=True), mods="numint", max_paths=64)]
     ops = range(48) if tier == "thorough" else (0, 5, 10, 17, 23, 30, 41, 47)
